@@ -25,6 +25,7 @@ func init() {
 		},
 		Run: runC17,
 		Controls: []Control{
+			{Name: "as-path-position-advanced-by-a-narrow-product", File: "protocols/bgp/packet/path_attributes.go", Old: "\t\t\tp += uint16(asnLength)\n", New: "\t\t\tp += uint16(asnLength*count) / uint16(count)\n", Expect: "product-computed-in-the-wide-type"},
 			{Name: "header-octet-counted-before-the-length-is-written", File: "protocols/bgp/packet/path_attributes.go", Old: "\tbuf.WriteByte(CommunitiesAttr)\n\n\tif length < 256 {\n\t\tbuf.WriteByte(uint8(length))\n\t} else {\n\t\tbuf.Write(convert.Uint16Byte(length))\n\t\tlength++\n\t}\n", New: "\tbuf.WriteByte(CommunitiesAttr)\n\n\tif length >= 256 {\n\t\tlength++\n\t}\n\tif length < 256 {\n\t\tbuf.WriteByte(uint8(length))\n\t} else {\n\t\tbuf.Write(convert.Uint16Byte(length))\n\t}\n", Expect: "length-field-written-as-computed"},
 			{Name: "unknown-attributes-appended-behind-wrong-cursor", File: "protocols/bgp/packet/path_attributes.go", Old: "\t\t\tValue:      unknownAttr.Value,\n\t\t}\n\t\tlast = last.Next\n", New: "\t\t\tValue:      unknownAttr.Value,\n\t\t}\n\t\tlast = optionals.Next\n", Expect: "list-append-advances-cursor"},
 			{Name: "refactor-threshold-written-differently", Silent: true, File: "protocols/bgp/packet/path_attributes.go", Old: "\tlength := uint16(CommunityLen * len(*coms))\n\n\tattrFlags := uint8(0)\n\tattrFlags = setOptional(attrFlags)\n\tattrFlags = setTransitive(attrFlags)\n\tattrFlags = setPartial(attrFlags)\n\tif length > 255 {", New: "\tlength := uint16(CommunityLen * len(*coms))\n\n\tattrFlags := uint8(0)\n\tattrFlags = setOptional(attrFlags)\n\tattrFlags = setTransitive(attrFlags)\n\tattrFlags = setPartial(attrFlags)\n\tif length >= 256 {"},
@@ -435,6 +436,8 @@ func runC17(c *core.Ctx) {
 
 	listAppendAdvancesCursor(c)
 	lengthWrittenAsComputed(c)
+	productComputedWide(c)
+	appendedTailIsUsed(c, "appended-tail-is-used")
 
 	// (6) attribute values that may be nil are guarded at the producer or in the serializer -------------------------------
 	nilableAttributes(c)
